@@ -27,8 +27,16 @@ def run(ck):
     # reached.  An attribute is written exactly when it is present: the deciding tests are presence tests of one member
     # (`m.has_value()`, `if (m)`, a bool member) and nothing else -- a test on the attribute's *value* drops some values on the way out
     wmap, wguard = {}, {}
+    wdom = cfg.dominators(w)
+
+    def arg_lit(a, blk):
+        """a literal argument, or a parameter of an expanded helper that was handed one"""
+        c = a.get("const")
+        if not (isinstance(c, str) and c.startswith("s:")) and a.get("v") and "@" in a["v"]:
+            c = (lib.bound_init(w, a["v"], blk, wdom) or {}).get("const")
+        return c[2:] if isinstance(c, str) and c.startswith("s:") else None
     for e in w.calls(lambda e: e.get("op") == "<<"):
-        lits = [a.get("const")[2:] for a in e.get("args", []) if isinstance(a.get("const"), str) and a["const"].startswith("s:")]
+        lits = [l_ for l_ in (arg_lit(a, e.block) for a in e.get("args", [])) if l_ is not None]
         name = None
         for l in lits:
             n = l.strip("; =").strip()
@@ -48,7 +56,14 @@ def run(ck):
         odd = []
         for b, k_ in guards:
             t = b.term
-            ms = {r.rsplit("::", 1)[1] for r in (t.get("refs") or []) if r.startswith("f:" + H + "Cookie::") and r.rsplit("::", 1)[1] in MEMBERS}
+            trefs = list(t.get("refs") or [])
+            # (a parameter of an expanded helper stands for the member it was handed)
+            for r in list(trefs):
+                if r.startswith("v:") and "@" in r:
+                    bi = lib.bound_init(w, r[2:], b.id, wdom) or {}
+                    if bi.get("f"):
+                        trefs.append("f:" + bi["f"])
+            ms = {r.rsplit("::", 1)[1] for r in trefs if r.startswith("f:" + H + "Cookie::") and r.rsplit("::", 1)[1] in MEMBERS}
             core_t = re.sub(r"\s+", "", (t.get("core") or {}).get("t") or "")
             presence = len(ms) == 1 and not t.get("cmp") and (k_ == 0) != bool(t.get("neg")) and \
                 re.match(r"^(this->)?%s(\.has_value\(\))?$" % re.escape(next(iter(ms))), core_t) is not None
